@@ -241,6 +241,33 @@ impl DiagFamily {
     pub fn new() -> DiagFamily {
         let mut typed: Vec<String> = crate::props::sem::alias_family(3).into_iter().map(|(_, s, _)| s).collect();
         typed.extend(crate::props::sem::nested_family());
+        // dependent types whose printed form depends on which variables occur where (a function type
+        // whose codomain mentions its own binder and variables bound further out), accepted and rejected
+        for p in [
+            "(p : int -> type) => (h : (y : int) -> p y) => (x : int) => h x",
+            "(a : type) => (p : a -> type) => (x : a) => (h : (y : a) -> p y) => h x",
+            "(a : type) => (b : type) => (f : (x : a) -> (y : b) -> a) => f",
+            "(p : int -> int -> type) => (h : (x : int) -> (y : int) -> p x y) => h 1",
+            "(a : type) => (p : a -> type) => (q : (x : a) -> p x -> type) => (x : a) => (u : p x) => q x u",
+            "(p : int -> type) => (h : (y : int) -> p y) => h true",
+            "(a : type) => (p : a -> type) => (x : a) => (h : (y : a) -> p y) => h h",
+            "eq : ((t : type) -> t -> t -> type) = (t : type) => (x : t) => (y : t) => (q : t -> type) -> q x -> q y; refl : ((t : type) -> (x : t) -> eq t x x) = (t : type) => (x : t) => (q : t -> type) => (u : q x) => u; refl int 3",
+        ] {
+            typed.push(p.to_owned());
+        }
+        if let Ok(rd) = std::fs::read_dir(format!("{}/examples", crate::infra::REPO_DIR)) {
+            let mut paths: Vec<_> = rd.filter_map(|e| e.ok()).map(|e| e.path()).collect();
+            paths.sort();
+            for path in paths {
+                let name = path.file_name().unwrap().to_string_lossy().to_string();
+                if name.contains("infinite") || name.contains("girard") {
+                    continue;
+                }
+                if let Ok(text) = std::fs::read_to_string(&path) {
+                    typed.push(text);
+                }
+            }
+        }
         DiagFamily { tok: (1..=5).map(|n| 5u64.pow(n)).sum(), scope: 125 * 125, ty: 216, order2: Family::new(2), order3: Family::new(3), typed }
     }
     pub fn count(&self) -> u64 {
@@ -443,7 +470,7 @@ impl Prop for C13 {
     fn evidence(&self, tier: Tier) -> EvidenceSpec {
         EvidenceSpec {
             level: "model_checking",
-            rule: "states = executions of the real `parse` under one complete assignment of iteration orders (a leaf of the choice tree), transitions = choice points answered; the explorer replays a prefix of permutation choices through hook H1 and takes the ascending order afterwards, records the arity n! met at each point and enumerates every alternative (stateless DFS, cap 300 / 5000 leaves per program, the number of capped trees is reported). Space: every group of k <= 3 definitions (thorough: also k = 4 at top level with d0 as the body, cap 48 leaves), each a literal, a lambda mentioning any subset of the group, or a non-value expression mentioning any subset, with each group variable as the body, at top level and nested in a called function. All leaves must be equal (verdict, diagnostics, order). For hash containers that no hook owns (none on the current tree), the whole pipeline (tokenize, parse, type check, evaluate) is repeated 5/12 times in process on every program of the multi-diagnostic family (all strings <= 5 over five symbols with lexical errors; 15625 groups of three definitions clashing with binders and each other and mentioning unbound names; 216 triples of ill-typed definitions; the definition-order family; the alias and nested-group families): std gives every new container fresh keys, and every repetition must print the same thing (repeat-run differential, not exhaustive). Separately the real binary (hooks off) is launched 6/24 times on the examples and on multi-diagnostic programs for `check` and `run`; any byte difference between launches is a violation (repeat-run differential, not exhaustive). evaluations = programs + files; non-trivial = programs whose choice tree has more than one leaf".to_owned(),
+            rule: "states = executions of the real `parse` under one complete assignment of iteration orders (a leaf of the choice tree), transitions = choice points answered; the explorer replays a prefix of permutation choices through hook H1 and takes the ascending order afterwards, records the arity n! met at each point and enumerates every alternative (stateless DFS, cap 300 / 5000 leaves per program, the number of capped trees is reported). Space: every group of k <= 3 definitions (thorough: also k = 4 at top level with d0 as the body, cap 48 leaves), each a literal, a lambda mentioning any subset of the group, or a non-value expression mentioning any subset, with each group variable as the body, at top level and nested in a called function. All leaves must be equal (verdict, diagnostics, order). For hash containers that no hook owns (none on the current tree), the whole pipeline (tokenize, parse, type check, evaluate) is repeated 5/12 times in process on every program of the multi-diagnostic family (all strings <= 5 over five symbols with lexical errors; 15625 groups of three definitions clashing with binders and each other and mentioning unbound names; 216 triples of ill-typed definitions; the definition-order family; the alias and nested-group families; dependent-type programs whose printed types mention their own binders and outer variables, and the repository's examples): std gives every new container fresh keys, and every repetition must print the same thing (repeat-run differential, not exhaustive). Separately the real binary (hooks off) is launched 6/24 times on the examples and on multi-diagnostic programs for `check` and `run`; any byte difference between launches is a violation (repeat-run differential, not exhaustive). evaluations = programs + files; non-trivial = programs whose choice tree has more than one leaf".to_owned(),
             assumptions: vec![
                 "hook H1 owns the only iteration over a hash container that reaches an output (grep of non-test code); another site is visible only to the repeat-run differentials, which sample hash keys instead of enumerating orders".to_owned(),
                 "ordered containers pass through the hook unchanged, so a repaired tree has no choice points".to_owned(),
